@@ -175,3 +175,57 @@ func VerifC13Symmetric() {
 	rt.Assert(string(i1.Writers[0]) == string(i2.Writers[0]) && string(i1.Writers[1]) == string(i2.Writers[1]), "writers-order-symmetric")
 	rt.Reach("symmetric")
 }
+
+// VerifC13Repeat: validation has no memory: after a payload of a space has been accepted, a payload carrying the
+// same space id with another header (other bytes, which cannot hash to that id; or a signature that does not
+// verify) is still rejected - on the create path and on the bare header check.
+func VerifC13Repeat() {
+	rt.Replace("github.com/anyproto/any-sync/util/cidutil.VerifyCid", func(data []byte, id string) bool {
+		return rt.UFBool("cid", data, id)
+	})
+	rt.Replace("github.com/anyproto/any-sync/util/crypto.UnmarshalEd25519PublicKeyProto", func(b []byte) (crypto.PubKey, error) {
+		if len(b) == 0 {
+			return nil, errors.New("verif: empty key")
+		}
+		return &vC13Pub{id: string(b)}, nil
+	})
+	v1 := rt.Bool()
+	ver := spacesyncproto.SpaceHeaderVersion_SpaceHeaderVersion0
+	if v1 {
+		ver = spacesyncproto.SpaceHeaderVersion_SpaceHeaderVersion1
+	}
+	hdrId := "hdr.z"
+	build := func(identity string, sig []byte) (spacestorage.SpaceStorageCreatePayload, []byte) {
+		aclRoot := &aclrecordproto.AclRoot{Identity: []byte(identity), MasterKey: []byte("mk"), SpaceId: hdrId, IdentitySignature: []byte{1}}
+		aclPayload, _ := aclRoot.MarshalVT()
+		aclRaw, _ := (&consensusproto.RawRecord{Payload: aclPayload, Signature: []byte{2}}).MarshalVT()
+		acl := &consensusproto.RawRecordWithId{Payload: aclRaw, Id: "acl" + identity}
+		setPayload, _ := (&treechangeproto.RootChange{AclHeadId: acl.Id, SpaceId: hdrId, Identity: []byte(identity)}).MarshalVT()
+		setRaw, _ := (&treechangeproto.RawTreeChange{Payload: setPayload, Signature: []byte{3}}).MarshalVT()
+		settings := &treechangeproto.RawTreeChangeWithId{RawChange: setRaw, Id: "set" + identity}
+		hdr := &spacesyncproto.SpaceHeader{Identity: []byte(identity), ReplicationKey: 35, Version: ver, SpaceType: "t"}
+		if v1 {
+			hdr.AclPayload, hdr.SettingPayload = acl.Payload, settings.RawChange
+		}
+		inner, _ := hdr.MarshalVT()
+		rawHdr, _ := (&spacesyncproto.RawSpaceHeader{SpaceHeader: inner, Signature: sig}).MarshalVT()
+		return spacestorage.SpaceStorageCreatePayload{AclWithId: acl, SpaceHeaderWithId: &spacesyncproto.RawSpaceHeaderWithId{RawHeader: rawHdr, Id: hdrId}, SpaceSettingsWithId: settings}, rawHdr
+	}
+	first, rawFirst := build("own1", []byte{7})
+	rt.Assume(ValidateSpaceStorageCreatePayload(first) == nil) // a genuine payload: every hash and signature in it verifies
+	rt.Reach("first-accepted")
+	// the same id again, with another header: other author and roots, or the same header with another signature
+	var second spacestorage.SpaceStorageCreatePayload
+	var rawSecond []byte
+	if rt.Bool() {
+		second, rawSecond = build("own2", []byte{7})
+	} else {
+		second, rawSecond = build("own1", []byte{8})
+	}
+	rt.Assume(!rt.UFBool("cid", rawSecond, "hdr")) // other bytes do not hash to the id of the first header
+	_ = rawFirst
+	rt.Assert(ValidateSpaceStorageCreatePayload(second) != nil, "another-header-under-an-accepted-id-is-rejected-on-create")
+	_, err := ValidateSpaceHeader(second.SpaceHeaderWithId, nil, nil, nil)
+	rt.Assert(err != nil, "another-header-under-an-accepted-id-is-rejected-on-header-check")
+	rt.Reach("repeat")
+}
